@@ -55,6 +55,9 @@ class ChildModel:
 HANG = "HANG"
 
 
+RESUME_TOL = 3   # virtual ms a resumed (interrupted) wait may lose to clock granularity
+
+
 def stop_model(child, actions, t, deadline_abs, reaped, kill_fail=None, intr=None):
     """Reference model of reproc_stop. Returns (ret, t_end, signals, now_reaped).
     signals: list of (time, sig, optional) - optional=True when the child was an unreaped
@@ -264,8 +267,13 @@ def gen_c07(tier, seed):
             m["intr"] = r.choice([5, 15, 35])
             fault = "FR poll 0 %d ; " % (40000 + m["intr"])
         # faults are armed right before the stop request and counted from there
-        script = "N 0 ; S 0 %s dl=%d stop=3:-1:0:0:0:0 ; %s%s%s%sST 0 %s ; D 0" % (
-            child_tokens(m), dl, child_event(m), " ; ".join(pre), " ; " if pre else "", fault, stop_args(acts))
+        retry = ""
+        if r.random() < 0.1:
+            # a failed start with another deadline first: the stop after the second start must not see it
+            retry = "S 0 prog=missing %s dl=%d stop=2:%d:0:0:0:0 ; " % (child_tokens(m), r.choice([10, 30, 60, 200]), r.choice([0, 20, 50]))
+            m["retry"] = 1
+        script = "N 0 ; %sS 0 %s dl=%d stop=3:-1:0:0:0:0 ; %s%s%s%sST 0 %s ; D 0" % (
+            retry, child_tokens(m), dl, child_event(m), " ; ".join(pre), " ; " if pre else "", fault, stop_args(acts))
         sig = "c07/%s/%s/%s/%s/%s/%s" % (fmt_stop(acts), m["exit_at"], m["term"], m["skill"], dl, state)
         cases.append(Case("c07-%d" % idx, script, m, sig))
     return cases
@@ -276,7 +284,7 @@ def gen_c15(tier, seed):
     cases = []
     for i in range(n):
         r = rng_for(seed, "c15", i)
-        state = ["running", "running", "running", "ended", "reaped", "notstarted", "failed", "fork"][i % 8]
+        state = ["running", "running", "running", "ended", "reaped", "notstarted", "failed", "fork", "retry"][i % 9]
         default_policy = r.random() < 0.5
         if default_policy:
             acts = [(NOOP, 0)] * 3
@@ -302,6 +310,14 @@ def gen_c15(tier, seed):
             script = "N 0 ; S 0 prog=missing %s ; D 0" % opts
         elif state == "fork":
             script = "N 0 ; S 0 fork=1 %s ; %s%s%sD 0" % (opts, child_event(m), " ; ".join(pre), " ; " if pre else "")
+        elif state == "retry":
+            # a start that fails (with its own deadline and stop policy) must leave nothing behind in the handle:
+            # the second start on the same handle, and the destroy after it, go by the second start's options only
+            stale = [(r.choice(ACTS[:4]), r.choice(TOS)) for _ in range(3)]
+            sdl = r.choice([10, 30, 60, 200])
+            script = "N 0 ; S 0 prog=missing %s dl=%d stop=%s ; S 0 %s ; %s%s%sD 0" % (
+                child_tokens(m), sdl, fmt_stop(stale), opts, child_event(m), " ; ".join(pre), " ; " if pre else "")
+            m["stale"] = {"dl": sdl, "acts": stale}
         else:
             script = "N 0 ; S 0 %s ; %s%s%sD 0" % (opts, child_event(m), " ; ".join(pre), " ; " if pre else "")
         if r.random() < 0.1:
@@ -455,6 +471,7 @@ def replay_model(case, log, vs, prop):
     start_t = 0
     reaped = None
     deadline_abs = None
+    resumed_any = False
     ends = [e for e in log.events if e.get("ev") == "end" and e["h"] == 0]
     hello = any(e.get("ev") == "hello" for e in log.events)
     for op in log.ops:
@@ -489,11 +506,23 @@ def replay_model(case, log, vs, prop):
                                     "destroy of an already reaped handle called kill/waitpid"))
             continue
         t0 = op["t0"]
+        intr = m.get("intr") if name == "ST" else None
+        tol = 0
+        if intr is not None and op.get("ret") != -4:
+            # The contract does not say that a signal handler interrupting a wait ends the request: giving up with
+            # EINTR there and then (what the pinned tree does) and resuming the wait for the time that remains are
+            # both accepted. The resumed request is compared with the uninterrupted model; recomputing "what
+            # remains" from a millisecond clock may cost a few ms, never gain any.
+            intr = None
+            tol = RESUME_TOL
         exp_ret, exp_t, exp_sigs, new_reaped = stop_model(child, acts, t0, deadline_abs, reaped,
-                                                          m.get("kill_fail") if name == "ST" else None,
-                                                          m.get("intr") if name == "ST" else None)
+                                                          m.get("kill_fail") if name == "ST" else None, intr)
         if name == "ST" and m.get("intr") is not None:
-            obs["interrupted_stops"] = obs.get("interrupted_stops", 0) + (1 if exp_ret == -4 else 0)
+            fired = any(t[0] == "poll" and t[7] & 1 for t in op.get("tr", []))
+            obs["interrupted_stops"] = obs.get("interrupted_stops", 0) + (1 if fired else 0)
+            if tol and fired:
+                obs["resumed_stops"] = obs.get("resumed_stops", 0) + 1
+                resumed_any = True
         obs["stops_checked"] += 1
         key_ctx = "%s" % ("stop" if name == "ST" else "destroy")
         got_sigs = lib_signals(op)
@@ -517,11 +546,13 @@ def replay_model(case, log, vs, prop):
             vs.append(Violation(prop, "%s/life/%s-hangs" % (prop, key_ctx),
                                 "%s never returns; the model returns %s at vt=%d" % (name, exp_ret, exp_t)))
             break
+        if tol and len(got_req) == len(exp_req) and all(g[1] == x[1] and x[0] <= g[0] <= x[0] + tol for g, x in zip(got_req, exp_req)):
+            got_req = exp_req
         if got_req != exp_req:
             kinds = "extra" if len(got_req) > len(exp_req) else "missing" if len(got_req) < len(exp_req) else "different"
             vs.append(Violation(prop, "%s/life/%s-signals-%s" % (prop, key_ctx, kinds),
                                 "signals sent %s, expected %s (acts=%s)" % (got_req, exp_req, acts)))
-        if op["t1"] != exp_t:
+        if op["t1"] != exp_t and not (exp_t <= op["t1"] <= exp_t + tol):
             vs.append(Violation(prop, "%s/life/%s-time:%s" % (prop, key_ctx, "early" if op["t1"] < exp_t else "late"),
                                 "%s returned at vt=%d, model says %d (acts=%s)" % (name, op["t1"], exp_t, acts)))
         if name == "ST":
@@ -547,7 +578,8 @@ def replay_model(case, log, vs, prop):
     # validate the child model against the kernel's account
     e = child.end()
     if ends and e is not None and not (prop == "C07" and ends[0]["vt"] < e[0]):
-        if e[0] != ends[0]["vt"] or e[1] != expected_status(ends[0]["how"], ends[0]["st"]):
+        slack = RESUME_TOL if resumed_any else 0
+        if not (e[0] <= ends[0]["vt"] <= e[0] + slack) or e[1] != expected_status(ends[0]["how"], ends[0]["st"]):
             # the model and the kernel disagree about the child itself: harness problem
             obs["model_kernel_disagree"] = 1
     return obs
